@@ -16,6 +16,7 @@ CONSTANTS M,         \* non-root changes 1..M
           MaxTs,     \* timestamps 1..MaxTs
           Classes,   \* payload classes used
           MaxBad,    \* at most this many changes of a class other than "ok"
+          AllowDetached, \* TRUE: changes without any dependency (other than the root) are enumerated too
           Emit,      \* TRUE: print one CASE line per graph ...
           EmitMod    \* ... whose pseudo-hash is 0 modulo EmitMod (1: every graph)
 
@@ -30,7 +31,7 @@ ReachN(d, c, n) == IF n = 0 THEN {} ELSE LET s == d[c] \ {Root} IN s \cup UNION 
 \* (to the root as well as to a descendant of the root) are allowed: real commits can have them
 \* and they matter, since the root's direct dependents are traversed in a different order.
 DepFuns == {d \in [NonRoot -> SUBSET Change] :
-              /\ \A c \in NonRoot : d[c] # {} /\ c \notin d[c]
+              /\ \A c \in NonRoot : (AllowDetached \/ d[c] # {}) /\ c \notin d[c]
               /\ \A c \in NonRoot : c \notin ReachN(d, c, M)}
 
 MkGraph(d, t, k, g) == [nodes |-> Change, deps |-> d, ts |-> t, cls |-> k, tgt |-> g]
